@@ -88,7 +88,7 @@ struct Sched {
     bool log_ops = false;
     ::std::vector<OpRec> oplog;
     void log_op(char kind, const void* obj) {
-        if (log_ops && mode == SERIAL) oplog.push_back(OpRec{ ticket.fetch_add(1) + 1, me()->id, kind, obj });
+        if (log_ops && mode == SERIAL) oplog.push_back(OpRec{ ticket.fetch_add(1, ::std::memory_order_relaxed) + 1, me()->id, kind, obj });
     }
     //! serial mode: true if every logical thread except the caller is blocked or finished
     bool others_at_rest() {
@@ -291,7 +291,9 @@ struct Sched {
 
 inline Sched& S() { return Sched::get(); }
 //! global event ticket (monotone; used by harnesses to order call / return events)
-inline uint64_t tick() { return S().ticket.fetch_add(1) + 1; }
+// relaxed on purpose: the harness's clock must not add happens-before edges between the threads it
+// observes (TSan would then miss races of the code under test)
+inline uint64_t tick() { return S().ticket.fetch_add(1, ::std::memory_order_relaxed) + 1; }
 //! sequence number of the calling thread's most recent shim-mutex acquisition
 inline uint64_t last_lock_seq() { return S().me()->last_lock_seq; }
 
@@ -319,7 +321,7 @@ public:
             if (owner_ == me) { owner_recursive(); }
             while (owner_ != nullptr) s.block('m', this);
             owner_ = me;
-            me->last_lock_seq = s.lock_seq.fetch_add(1) + 1;
+            me->last_lock_seq = s.lock_seq.fetch_add(1, ::std::memory_order_relaxed) + 1;
             me->same_loads = 0;
             s.log_op('L', this);
         }
@@ -327,7 +329,7 @@ public:
             s.jitter();
             real_.lock();
             dsched::ThreadRec* me = s.me();
-            me->last_lock_seq = s.lock_seq.fetch_add(1) + 1;
+            me->last_lock_seq = s.lock_seq.fetch_add(1, ::std::memory_order_relaxed) + 1;
         }
     }
     bool try_lock() {
@@ -336,12 +338,12 @@ public:
             s.yield_point();
             if (owner_ != nullptr) return false;
             owner_ = s.me();
-            owner_->last_lock_seq = s.lock_seq.fetch_add(1) + 1;
+            owner_->last_lock_seq = s.lock_seq.fetch_add(1, ::std::memory_order_relaxed) + 1;
             return true;
         }
         s.jitter();
         if (!real_.try_lock()) return false;
-        s.me()->last_lock_seq = s.lock_seq.fetch_add(1) + 1;
+        s.me()->last_lock_seq = s.lock_seq.fetch_add(1, ::std::memory_order_relaxed) + 1;
         return true;
     }
     void unlock() {
@@ -366,7 +368,7 @@ public:
         dsched::ThreadRec* me = s.me();
         while (owner_ != nullptr) s.block('m', this);
         owner_ = me;
-        me->last_lock_seq = s.lock_seq.fetch_add(1) + 1;
+        me->last_lock_seq = s.lock_seq.fetch_add(1, ::std::memory_order_relaxed) + 1;
         s.log_op('L', this);
     }
 
@@ -411,7 +413,7 @@ public:
         else {
             s.jitter();
             real_.wait(lock);
-            s.me()->last_lock_seq = s.lock_seq.fetch_add(1) + 1;
+            s.me()->last_lock_seq = s.lock_seq.fetch_add(1, ::std::memory_order_relaxed) + 1;
         }
     }
     template <typename Pred>
@@ -434,7 +436,7 @@ public:
         }
         s.jitter();
         ::std::cv_status r = real_.wait_for(lock, d);
-        s.me()->last_lock_seq = s.lock_seq.fetch_add(1) + 1;
+        s.me()->last_lock_seq = s.lock_seq.fetch_add(1, ::std::memory_order_relaxed) + 1;
         return r;
     }
     template <typename Rep, typename Period, typename Pred>
@@ -447,7 +449,7 @@ public:
         }
         s.jitter();
         bool r = real_.wait_for(lock, d, pred);
-        s.me()->last_lock_seq = s.lock_seq.fetch_add(1) + 1;
+        s.me()->last_lock_seq = s.lock_seq.fetch_add(1, ::std::memory_order_relaxed) + 1;
         return r;
     }
     template <typename Clock, typename Duration>
@@ -455,7 +457,7 @@ public:
         if (dsched::S().serial()) return wait_for(lock, ::std::chrono::milliseconds(1));
         dsched::S().jitter();
         ::std::cv_status r = real_.wait_until(lock, t);
-        dsched::S().me()->last_lock_seq = dsched::S().lock_seq.fetch_add(1) + 1;
+        dsched::S().me()->last_lock_seq = dsched::S().lock_seq.fetch_add(1, ::std::memory_order_relaxed) + 1;
         return r;
     }
     template <typename Clock, typename Duration, typename Pred>
@@ -463,7 +465,7 @@ public:
         if (dsched::S().serial()) return wait_for(lock, ::std::chrono::milliseconds(1), pred);
         dsched::S().jitter();
         bool r = real_.wait_until(lock, t, pred);
-        dsched::S().me()->last_lock_seq = dsched::S().lock_seq.fetch_add(1) + 1;
+        dsched::S().me()->last_lock_seq = dsched::S().lock_seq.fetch_add(1, ::std::memory_order_relaxed) + 1;
         return r;
     }
 
